@@ -633,6 +633,12 @@ impl World {
         }
         self.ctx.now = self.ctx.now.max(t);
         match &e {
+            Evt::PacketSent { space, pn, probe: true, .. } => {
+                self.ctx.log(|| format!("ep{ep} c{conn} EV probe-mode packet {space:?}#{pn}"))
+            }
+            Evt::Metrics(m) if std::env::var("VQ_LOG_METRICS").is_ok() => {
+                self.ctx.log(|| format!("ep{ep} c{conn} EV {m:?}"))
+            }
             Evt::Metrics(_) | Evt::PacketSent { .. } | Evt::AckRange { .. } => {}
             other => self.ctx.log(|| format!("ep{ep} c{conn} EV {other:?}")),
         }
